@@ -327,7 +327,10 @@ class C02(Check):
                     if c['type'] == 'char' and c['clen'] > 0:
                         c['clen'] = 24
             rows = []
-            for r in range(rng.randint(1, 5) if p_words <= 0.5 else rng.randint(3, 8)):
+            nrows = rng.randint(1, 5) if p_words <= 0.5 else rng.randint(3, 8)
+            if rng.random() < 0.12 and not any(c['type'] == 'char' and c['clen'] == -1 for c in cols):
+                nrows = 0            # a structure that is declared but has no data rows (array columns included)
+            for r in range(nrows):
                 row = []
                 for c in cols:
                     def one(in_array):
